@@ -245,8 +245,9 @@ namespace nmtools::array
                     out_data_ptr[i] = identity;
                 }
                 auto inp_shape = nmtools::shape(*input_array_ptr);
-                auto reduction_axis = view.axis;
-                auto reduction_kind = (reduction_axis == -1) || ((int)reduction_axis == (int)(len(inp_shape)-1)) ? ReductionKind::HORIZONTAL : ReductionKind::VERTICAL;
+                // a negative axis counts from the end
+                auto reduction_axis = ((int)view.axis < 0) ? (int)view.axis + (int)len(inp_shape) : (int)view.axis;
+                auto reduction_kind = ((int)reduction_axis == (int)(len(inp_shape)-1)) ? ReductionKind::HORIZONTAL : ReductionKind::VERTICAL;
                 // "normalize" the out shape as if keepdims=True
                 auto out_shape_ = [&](){
                     using keepdims_type = decltype(view.keepdims);
